@@ -100,6 +100,10 @@ def main(argv):
     s.add_argument('--props', default='C06,C07,C16,C19')
     s.add_argument('--n', type=int, default=200)
     s.add_argument('--mutants', default='')
+    d = sub.add_parser('digests')
+    d.add_argument('--props', default='C06,C07,C16,C19')
+    d.add_argument('--n', type=int, default=50)
+    d.add_argument('--workers', type=int, default=16)
     args = ap.parse_args(argv)
     print('simcheck: VERIF_SEED={} PYTHONHASHSEED={} aslr={} repo={}'.format(
         os.environ.get('VERIF_SEED', '0'), os.environ.get('PYTHONHASHSEED'),
@@ -108,6 +112,10 @@ def main(argv):
         return cmd_run(args)
     if args.cmd == 'replay':
         return cmd_replay(args)
+    if args.cmd == 'digests':
+        _import_library()
+        from . import selftest
+        return selftest.cmd_digests(args)
     if args.cmd == 'selftest':
         from . import selftest
         return selftest.main(args)
